@@ -27,13 +27,13 @@ type outs map[string]core.Bytes
 
 // call is one input of one function family.
 type call struct {
-	ev      string         // event name = family
-	fields  core.Ev        // the arguments as logged
-	eval    func() outs    // evaluates every golib entry point of the family on the input
-	ref     func() outs    // the transliteration (sweep binding), may be nil
-	key     string         // identity of the input for the evidence counters
-	nontriv bool           // counts under the stated rule
-	intact  func() bool    // the input was not modified by the calls
+	ev      string      // event name = family
+	fields  core.Ev     // the arguments as logged
+	eval    func() outs // evaluates every golib entry point of the family on the input
+	ref     func() outs // the transliteration (sweep binding), may be nil
+	key     string      // identity of the input for the evidence counters
+	nontriv bool        // counts under the stated rule
+	intact  func() bool // the input was not modified by the calls
 }
 
 // ---- the real functions, one family per constructor ----------------------------------------
